@@ -36,7 +36,9 @@ int main()
   quill::BackendOptions bo; bo.log_timestamp_ordering_grace_period = std::chrono::microseconds{0};
   backend->init(bo);
   auto s_off = std::make_shared<RecSink>(); auto s_on = std::make_shared<RecSink>();
-  char const* pat = "<%(logger)>[%(log_level_short_code)] %(message)|END";
+  // every per-statement value that _write_log_statement hands to the formatter appears in the pattern (an argument mix-up shows)
+  char const* pat = "<%(logger)>[%(log_level_short_code)][%(log_level)][%(thread_id)][%(thread_name)][%(process_id)][%(caller_function)] %(message)|END";
+  std::string const mid = std::string("[INFO][") + std::to_string(quill::detail::get_thread_id()) + "][" + quill::detail::get_thread_name() + "][" + std::to_string(quill::detail::get_process_id()) + "][operator()] ";
   quill::Logger* off = quill::Frontend::create_or_get_logger("off", std::static_pointer_cast<quill::Sink>(s_off),
     quill::PatternFormatterOptions{pat, "%H:%M:%S", quill::Timezone::GmtTime, false}, quill::ClockSourceType::System);
   quill::Logger* on = quill::Frontend::create_or_get_logger("on", std::static_pointer_cast<quill::Sink>(s_on),
@@ -46,11 +48,11 @@ int main()
   Obl o3{"dispatch.named_args_whole", "C12", "", "add_metadata_to_multi_line_logs on but the statement has named args: one whole statement as with the option off"};
   long n = for_all_strings("ab\n", LEN, [&](std::string const& m) {
     LOG_INFO(off, "{}", m); backend->poll();
-    check(o1, s_off->statements == spec_whole("<off>[I] ", m), m); s_off->statements.clear();
+    check(o1, s_off->statements == spec_whole("<off>[I]" + mid, m), m); s_off->statements.clear();
     LOG_INFO(on, "{}", m); backend->poll();
-    check(o2, s_on->statements == spec_lines("<on>[I] ", m), m); s_on->statements.clear();
+    check(o2, s_on->statements == spec_lines("<on>[I]" + mid, m), m); s_on->statements.clear();
     LOG_INFO(on, "{x}", m); backend->poll();
-    check(o3, s_on->statements == spec_whole("<on>[I] ", m), m); s_on->statements.clear();
+    check(o3, s_on->statements == spec_whole("<on>[I]" + mid, m), m); s_on->statements.clear();
   });
   printf("SPACE every message of length <= %d over {a, b, \\n} x {option off, option on, option on with a named argument}, through the real frontend + ManualBackendWorker\n", LEN);
   printf("DISTINCT %ld\n", 3 * n);
